@@ -477,7 +477,9 @@ def s_floor(x):
     x = _num(x)
     if _conc(x):
         return np.floor(x)
-    if isinstance(x, SInt):
+    if isinstance(x, SFP):
+        return x.floor()
+    if isinstance(x, (SInt, SBV)):
         return x
     return core._as_real(x.floor())
 
@@ -486,7 +488,9 @@ def s_ceil(x):
     x = _num(x)
     if _conc(x):
         return np.ceil(x)
-    if isinstance(x, SInt):
+    if isinstance(x, SFP):
+        return x.ceil()
+    if isinstance(x, (SInt, SBV)):
         return x
     return core._as_real(x.ceil())
 
@@ -1582,6 +1586,9 @@ def _deep_plain(x):
     return x
 
 
+KEEP_BV_INT = [0]     # when set to a width: int() keeps bit-vectors (IEEE lemmas on integer-to-float formulas)
+
+
 class SymIntMeta(type):
     def __call__(cls, x=0, *a):
         if isinstance(x, SInt):
@@ -1591,7 +1598,9 @@ class SymIntMeta(type):
         if isinstance(x, SBool):
             return x.num()
         if isinstance(x, SBV):
-            return x.to_int()
+            return x if KEEP_BV_INT[0] else x.to_int()
+        if isinstance(x, SFP):
+            return x.to_sbv(KEEP_BV_INT[0] or 64)
         if isinstance(x, SymArray):
             if x.size != 1:
                 raise TypeError("only length-1 arrays can be converted to Python scalars")
@@ -1617,6 +1626,10 @@ class SymFloatMeta(type):
             return x
         if isinstance(x, (SInt, SBool)):
             return core._as_real(x)
+        if isinstance(x, SBV):
+            return x.to_fp()
+        if isinstance(x, SFP):
+            return x
         if isinstance(x, SymArray):
             return cls(x.view(np.ndarray).ravel()[0])
         if isinstance(x, str):
@@ -1640,6 +1653,27 @@ def sym_round_builtin(x, n=None):
     return builtins.round(x) if n is None else builtins.round(x, n)
 
 
+def _sym_extreme(kind):
+    real = builtins.max if kind == "max" else builtins.min
+
+    def f(*args, **kw):
+        items = list(args[0]) if len(args) == 1 and not kw else list(args)
+        if kw or not any(isinstance(a, Sym) for a in items) or any(isinstance(a, (np.ndarray, UVal)) for a in items):
+            return real(*args, **kw)
+        acc = items[0]
+        for x in items[1:]:
+            if isinstance(acc, SBV) or isinstance(x, SBV) or isinstance(acc, SFP) or isinstance(x, SFP):
+                c = (x > acc) if kind == "max" else (x < acc)
+            else:
+                c = (_num(x) > _num(acc)) if kind == "max" else (_num(x) < _num(acc))
+            acc = ite(c, x, acc)
+        return acc
+    return f
+
+
+sym_max = _sym_extreme("max")
+sym_min = _sym_extreme("min")
+
 NP = NPFacade()
 
 
@@ -1650,6 +1684,8 @@ def patch_module(mod, **extra):
     mod.int = sym_int
     mod.float = sym_float
     mod.round = sym_round_builtin
+    mod.max = sym_max
+    mod.min = sym_min
     for k, v in extra.items():
         setattr(mod, k, v)
 
